@@ -329,7 +329,7 @@ func runBlockApi(c *vrun.Ctx, thorough bool) error {
 	if thorough {
 		cfg = "WireBlockApi_thorough.cfg"
 	}
-	res, err := tlc.Run(tlc.Opts{SpecDir: c.SpecDir("wire"), Module: "WireBlockApi", Config: cfg, Workers: 3,
+	res, err := tlc.Run(tlc.Opts{SpecDir: c.SpecDir("wire"), Module: "WireBlockApi", Config: cfg, Workers: 2,
 		Timeout: 15 * time.Minute, Scratch: c.Scratch, HeapGB: 4})
 	if err != nil {
 		return err
